@@ -134,7 +134,8 @@ impl Commitment {
 pub struct RangeProof { pub p: u8 }
 impl Clone for RangeProof { #[verifier::external_body] fn clone(&self) -> (r: Self) ensures r == *self { unimplemented!() } }
 impl Copy for RangeProof {}
-pub struct OutputFeatures { pub f: u8 }
+#[derive(Clone, Copy, PartialEq, Eq, Structural)]
+pub enum OutputFeatures { Plain, Coinbase }
 impl ExtCodec for RangeProof { uninterp spec fn enc(&self) -> Seq<u8>; }
 impl ExtCodec for OutputFeatures { uninterp spec fn enc(&self) -> Seq<u8>; }
 impl RangeProof {
